@@ -81,7 +81,16 @@ pub fn decode_book_case(data: &[u8]) -> arbitrary::Result<BookCase> {
         };
         ops.push(op);
     }
-    Ok(BookCase { tick, levels, trading, t0, tie, ops, drain: true, quiet: 0 })
+    Ok(BookCase { tick, levels, trading, t0, tie, ops, drain: true, quiet: quiet_mask(data) })
+}
+
+/// quiet operations / steps for fuzz inputs: a function of the whole input (a third of the inputs get a mask), so
+/// that the decoding of the operations themselves is unchanged
+fn quiet_mask(data: &[u8]) -> u64 {
+    if data.len() % 3 != 0 {
+        return 0;
+    }
+    data.iter().fold(0xcbf2_9ce4_8422_2325u64, |h, b| (h ^ *b as u64).wrapping_mul(0x0000_0100_0000_01b3))
 }
 
 fn prop_env() -> &'static str {
@@ -164,7 +173,7 @@ pub fn decode_env_case(data: &[u8]) -> arbitrary::Result<EnvCase> {
     if steps.is_empty() {
         steps.push(StepSpec { toggle: None, instrs: vec![] });
     }
-    Ok(EnvCase { kind_assets, levels, ticks, t0: 0, step_size, trading, seed, steps, drain: true, exact_vols: false, quiet_steps: 0 })
+    Ok(EnvCase { kind_assets, levels, ticks, t0: 0, step_size, trading, seed, steps, drain: true, exact_vols: false, quiet_steps: quiet_mask(data) })
 }
 
 pub fn fuzz_env(data: &[u8]) {
